@@ -12,6 +12,7 @@ import (
 	"io"
 	"math"
 	"sort"
+	"strings"
 	"time"
 
 	"github.com/mgtv-tech/redis-GunYu/config"
@@ -367,8 +368,8 @@ func CompareKeyspace(c Cfg, ks *fake.Keyspace, metas []rdbgen.Meta, items []rdbg
 	}
 	for db := range ks.DBs {
 		for k := range ks.DBs[db] {
-			if gen.IsReservedKey([]byte(k)) {
-				continue
+			if gen.IsReservedKey([]byte(k)) || strings.HasPrefix(k, "redis-gunyu-bisync:") {
+				continue // the tool's own bookkeeping (checkpoints; markers of the bidirectional path)
 			}
 			if !want[fmt.Sprintf("%d/%s", db, k)] {
 				out = append(out, Mismatch{"extra-key", fmt.Sprintf("target db %d holds key %q which is not in the snapshot", db, k)})
